@@ -101,6 +101,335 @@ func findFunc(f *ast.File, name string) *ast.FuncDecl {
 	return nil
 }
 
+// ---------------------------------------------------------------------------------------------
+// a small translator for straight-line unsigned integer code with `if` (no else), early `return`
+// and condition-only `for` loops: every variable is a Nat, wrap-around is explicit (`u32` / `u64`
+// after <<, +, ++, --), an `if` without else duplicates the continuation, a loop becomes a
+// fuel-bounded recursive helper.  Used for mathx.expandF16ToF32 and mathx.Float80.Float64.
+
+type tr struct {
+	wrap    string            // "u32" | "u64"
+	mod     string            // "2 ^ 32" | "2 ^ 64"
+	consts  map[string]string // package constants (literal values)
+	rename  map[string]string
+	bigMant map[string]string // x := new(big.Float).SetPrec(64).SetUint64(m)
+	bigExp  map[string]string // x.SetMantExp(x, e)
+	helpers []string
+	fn      string
+	fuel    int
+}
+
+func (t *tr) isConst(e ast.Expr) bool {
+	switch x := e.(type) {
+	case *ast.BasicLit:
+		return true
+	case *ast.Ident:
+		_, ok := t.consts[x.Name]
+		return ok
+	case *ast.ParenExpr:
+		return t.isConst(x.X)
+	case *ast.BinaryExpr:
+		return t.isConst(x.X) && t.isConst(x.Y)
+	}
+	return false
+}
+
+func (t *tr) expr(e ast.Expr) string {
+	switch x := e.(type) {
+	case *ast.ParenExpr:
+		return t.expr(x.X)
+	case *ast.BasicLit:
+		if x.Kind == token.INT {
+			return x.Value
+		}
+	case *ast.Ident:
+		if v, ok := t.consts[x.Name]; ok {
+			return v
+		}
+		if r, ok := t.rename[x.Name]; ok {
+			return r
+		}
+		return x.Name
+	case *ast.SelectorExpr:
+		if id, ok := x.X.(*ast.Ident); ok {
+			return id.Name + "_" + x.Sel.Name
+		}
+	case *ast.CallExpr:
+		if id, ok := x.Fun.(*ast.Ident); ok && len(x.Args) == 1 {
+			switch id.Name {
+			case "uint32", "uint64", "uint16", "Float16":
+				return t.expr(x.Args[0]) // widening / same-width conversions of values that fit
+			}
+		}
+	case *ast.BinaryExpr:
+		a, b := t.expr(x.X), t.expr(x.Y)
+		switch x.Op {
+		case token.AND:
+			return "(" + a + " &&& " + b + ")"
+		case token.OR:
+			return "(" + a + " ||| " + b + ")"
+		case token.SHL:
+			return "(" + t.wrap + " (" + a + " <<< " + b + "))"
+		case token.SHR:
+			return "(" + a + " >>> " + b + ")"
+		case token.ADD:
+			return "(" + t.wrap + " (" + a + " + " + b + "))"
+		case token.SUB:
+			if t.isConst(x) {
+				return "(" + a + " - " + b + ")"
+			}
+			return "(" + t.wrap + " (" + a + " + " + t.mod + " - " + b + "))"
+		}
+	}
+	die("%s: unsupported expression %T", t.fn, e)
+	return ""
+}
+
+// intExpr: a Go `int` expression (the exponent handed to SetMantExp) as a Lean Int
+func (t *tr) intExpr(e ast.Expr) string {
+	switch x := e.(type) {
+	case *ast.ParenExpr:
+		return "(" + t.intExpr(x.X) + ")"
+	case *ast.BasicLit:
+		return x.Value
+	case *ast.CallExpr:
+		if id, ok := x.Fun.(*ast.Ident); ok && id.Name == "int" && len(x.Args) == 1 {
+			return "((" + t.expr(x.Args[0]) + " : Nat) : Int)"
+		}
+	case *ast.BinaryExpr:
+		if x.Op == token.SUB || x.Op == token.ADD {
+			return "(" + t.intExpr(x.X) + " " + x.Op.String() + " " + t.intExpr(x.Y) + ")"
+		}
+	}
+	die("%s: unsupported int expression %T", t.fn, e)
+	return ""
+}
+
+func (t *tr) cond(e ast.Expr) string {
+	be, ok := e.(*ast.BinaryExpr)
+	if !ok {
+		die("%s: unsupported condition", t.fn)
+	}
+	switch be.Op {
+	case token.EQL:
+		return t.expr(be.X) + " = " + t.expr(be.Y)
+	case token.NEQ:
+		return t.expr(be.X) + " ≠ " + t.expr(be.Y)
+	}
+	die("%s: unsupported condition operator %s", t.fn, be.Op)
+	return ""
+}
+
+func isCall(e ast.Expr, recv, method string) (*ast.CallExpr, bool) {
+	ce, ok := e.(*ast.CallExpr)
+	if !ok {
+		return nil, false
+	}
+	se, ok := ce.Fun.(*ast.SelectorExpr)
+	if !ok || se.Sel.Name != method {
+		return nil, false
+	}
+	if recv != "" {
+		id, ok := se.X.(*ast.Ident)
+		if !ok || id.Name != recv {
+			return nil, false
+		}
+	}
+	return ce, true
+}
+
+// one simple (non-branching) statement as a `let`; "" if it only records something
+func (t *tr) simple(st ast.Stmt) (string, bool) {
+	switch x := st.(type) {
+	case *ast.AssignStmt:
+		if len(x.Lhs) == 2 && len(x.Rhs) == 1 {
+			// v, _ := x.Float64()
+			v, ok1 := x.Lhs[0].(*ast.Ident)
+			u, ok2 := x.Lhs[1].(*ast.Ident)
+			if ce, ok := x.Rhs[0].(*ast.CallExpr); ok && ok1 && ok2 && u.Name == "_" {
+				if se, ok := ce.Fun.(*ast.SelectorExpr); ok && se.Sel.Name == "Float64" {
+					bx := se.X.(*ast.Ident).Name
+					m, okm := t.bigMant[bx]
+					e, oke := t.bigExp[bx]
+					if !okm || !oke {
+						die("%s: big.Float %s without SetUint64/SetMantExp", t.fn, bx)
+					}
+					// a 64-bit-precision big.Float holds m·2^e exactly; (*Float).Float64 rounds to nearest even
+					return fmt.Sprintf("let %s := roundF64 false %s %s", v.Name, m, e), true
+				}
+			}
+			die("%s: unsupported two-value assignment", t.fn)
+		}
+		if len(x.Lhs) != 1 || len(x.Rhs) != 1 {
+			die("%s: unsupported assignment", t.fn)
+		}
+		lhs, ok := x.Lhs[0].(*ast.Ident)
+		if !ok {
+			die("%s: unsupported assignment target", t.fn)
+		}
+		switch x.Tok {
+		case token.DEFINE, token.ASSIGN:
+			// x := new(big.Float).SetPrec(64).SetUint64(m)
+			if c1, ok := isCall(x.Rhs[0], "", "SetUint64"); ok {
+				c2, ok2 := isCall(c1.Fun.(*ast.SelectorExpr).X, "", "SetPrec")
+				if !ok2 || len(c2.Args) != 1 || len(c1.Args) != 1 {
+					die("%s: unsupported big.Float construction", t.fn)
+				}
+				if bl, ok := c2.Args[0].(*ast.BasicLit); !ok || bl.Value != "64" {
+					die("%s: big.Float precision must be 64 (the whole significand)", t.fn)
+				}
+				t.bigMant[lhs.Name] = t.expr(c1.Args[0])
+				return "", true
+			}
+			// v = -v on a float64 bit pattern
+			if ue, ok := x.Rhs[0].(*ast.UnaryExpr); ok && ue.Op == token.SUB {
+				return fmt.Sprintf("let %s := negF64 %s", lhs.Name, t.expr(ue.X)), true
+			}
+			return fmt.Sprintf("let %s := %s", lhs.Name, t.expr(x.Rhs[0])), true
+		case token.SHL_ASSIGN:
+			return fmt.Sprintf("let %s := (%s (%s <<< %s))", lhs.Name, t.wrap, lhs.Name, t.expr(x.Rhs[0])), true
+		case token.AND_ASSIGN:
+			return fmt.Sprintf("let %s := (%s &&& %s)", lhs.Name, lhs.Name, t.expr(x.Rhs[0])), true
+		case token.ADD_ASSIGN:
+			return fmt.Sprintf("let %s := (%s (%s + %s))", lhs.Name, t.wrap, lhs.Name, t.expr(x.Rhs[0])), true
+		}
+		die("%s: unsupported assignment operator %s", t.fn, x.Tok)
+	case *ast.IncDecStmt:
+		id := x.X.(*ast.Ident).Name
+		if x.Tok == token.INC {
+			return fmt.Sprintf("let %s := (%s (%s + 1))", id, t.wrap, id), true
+		}
+		return fmt.Sprintf("let %s := (%s (%s + %s - 1))", id, t.wrap, id, t.mod), true
+	case *ast.ExprStmt:
+		// x.SetMantExp(x, e)
+		if ce, ok := x.X.(*ast.CallExpr); ok {
+			if se, ok := ce.Fun.(*ast.SelectorExpr); ok && se.Sel.Name == "SetMantExp" && len(ce.Args) == 2 {
+				bx := se.X.(*ast.Ident).Name
+				if a0, ok := ce.Args[0].(*ast.Ident); !ok || a0.Name != bx {
+					die("%s: SetMantExp must scale the value itself", t.fn)
+				}
+				t.bigExp[bx] = t.intExpr(ce.Args[1])
+				return "", true
+			}
+		}
+	}
+	return "", false
+}
+
+func assignedVars(b *ast.BlockStmt) []string {
+	var vs []string
+	seen := map[string]bool{}
+	for _, st := range b.List {
+		var n string
+		switch x := st.(type) {
+		case *ast.AssignStmt:
+			n = x.Lhs[0].(*ast.Ident).Name
+		case *ast.IncDecStmt:
+			n = x.X.(*ast.Ident).Name
+		default:
+			die("loop body: unsupported statement %T", st)
+		}
+		if !seen[n] {
+			seen[n] = true
+			vs = append(vs, n)
+		}
+	}
+	return vs
+}
+
+// block translates a statement list to one Lean expression (the function's result)
+func (t *tr) block(sts []ast.Stmt, ind string) string {
+	if len(sts) == 0 {
+		die("%s: control reaches the end of the function without return", t.fn)
+	}
+	st, rest := sts[0], sts[1:]
+	if s, ok := t.simple(st); ok {
+		if s == "" {
+			return t.block(rest, ind)
+		}
+		return ind + s + "\n" + t.block(rest, ind)
+	}
+	switch x := st.(type) {
+	case *ast.ReturnStmt:
+		if len(x.Results) != 1 {
+			die("%s: unsupported return", t.fn)
+		}
+		if ce, ok := x.Results[0].(*ast.CallExpr); ok {
+			if se, ok := ce.Fun.(*ast.SelectorExpr); ok {
+				if id, ok := se.X.(*ast.Ident); ok && id.Name == "math" {
+					switch se.Sel.Name {
+					case "NaN":
+						return ind + "0x7FF8000000000001" // math.NaN()
+					case "Inf":
+						if ue, ok := ce.Args[0].(*ast.UnaryExpr); ok && ue.Op == token.SUB {
+							return ind + "0xFFF0000000000000"
+						}
+						return ind + "0x7FF0000000000000"
+					}
+				}
+			}
+		}
+		return ind + t.expr(x.Results[0])
+	case *ast.IfStmt:
+		if x.Else != nil || x.Init != nil {
+			die("%s: if with else/init is not supported", t.fn)
+		}
+		body := append(append([]ast.Stmt{}, x.Body.List...), rest...)
+		return ind + "if " + t.cond(x.Cond) + " then\n" + t.block(body, ind+"  ") + "\n" + ind + "else\n" + t.block(rest, ind+"  ")
+	case *ast.ForStmt:
+		if x.Init != nil || x.Post != nil || x.Cond == nil {
+			die("%s: only condition-only loops are supported", t.fn)
+		}
+		vs := assignedVars(x.Body)
+		name := fmt.Sprintf("%s_loop%d", t.fn, len(t.helpers))
+		var hb strings.Builder
+		fmt.Fprintf(&hb, "def %s : Nat → %s%s\n", name, strings.Repeat("Nat → ", len(vs)), strings.Join(repeat("Nat", len(vs)), " × "))
+		fmt.Fprintf(&hb, "  | 0, %s => (%s)\n", strings.Join(vs, ", "), strings.Join(vs, ", "))
+		fmt.Fprintf(&hb, "  | fuel+1, %s =>\n    if %s then\n", strings.Join(vs, ", "), t.cond(x.Cond))
+		for _, bst := range x.Body.List {
+			s, ok := t.simple(bst)
+			if !ok || s == "" {
+				die("%s: unsupported loop body", t.fn)
+			}
+			hb.WriteString("      " + s + "\n")
+		}
+		fmt.Fprintf(&hb, "      %s fuel %s\n    else (%s)\n", name, strings.Join(vs, " "), strings.Join(vs, ", "))
+		t.helpers = append(t.helpers, hb.String())
+		return ind + fmt.Sprintf("let (%s) := %s %d %s", strings.Join(vs, ", "), name, t.fuel, strings.Join(vs, " ")) + "\n" + t.block(rest, ind)
+	}
+	die("%s: unsupported statement %T", t.fn, st)
+	return ""
+}
+
+func repeat(s string, n int) []string {
+	r := make([]string, n)
+	for i := range r {
+		r[i] = s
+	}
+	return r
+}
+
+func packageConsts(f *ast.File) map[string]string {
+	m := map[string]string{}
+	for _, d := range f.Decls {
+		gd, ok := d.(*ast.GenDecl)
+		if !ok || gd.Tok != token.CONST {
+			continue
+		}
+		for _, sp := range gd.Specs {
+			vs := sp.(*ast.ValueSpec)
+			for i, n := range vs.Names {
+				if i < len(vs.Values) {
+					if bl, ok := vs.Values[i].(*ast.BasicLit); ok && bl.Kind == token.INT {
+						m[n.Name] = bl.Value
+					}
+				}
+			}
+		}
+	}
+	return m
+}
+
 func main() {
 	if len(os.Args) < 2 {
 		die("usage: c02bits <repo>")
@@ -109,8 +438,8 @@ func main() {
 	fset := token.NewFileSet()
 
 	var sb strings.Builder
-	sb.WriteString("/-! GENERATED by /verif/extract/c02bits from pkg/bitio/reversebytes64.go and pkg/decode/read.go — do not edit. -/\n")
-	sb.WriteString("namespace FqModel.Gen.BitFns\n\n")
+	header := "/-! GENERATED by /verif/extract/c02bits from pkg/bitio/reversebytes64.go, pkg/decode/read.go,\n    internal/mathx/float16.go and internal/mathx/float80.go — do not edit. -/\n"
+	sb.WriteString("import FqModel.Scalar\n" + header + "namespace FqModel.Gen.BitFns\nopen FqModel.Scalar (roundF64 negF64)\n\n")
 
 	// ---- ReverseBytes64
 	f, err := parser.ParseFile(fset, filepath.Join(repo, "pkg/bitio/reversebytes64.go"), nil, 0)
@@ -205,6 +534,43 @@ func main() {
 	sb.WriteString("\n/-- read.go trySEndian: `if <cond> > 0 { s = <then> } else { s = <else> }` on uint64/int64 -/\n")
 	sb.WriteString("def twosComplement (nBits : Nat) (n : BitVec 64) : Int :=\n")
 	fmt.Fprintf(&sb, "  if %s ≠ 0#64 then %s.toInt else %s.toInt\n", bvExpr(cond.X), bvExpr(thenE), bvExpr(elseE))
+
+	// ---- mathx.expandF16ToF32 (uint32 arithmetic)
+	f3, err := parser.ParseFile(fset, filepath.Join(repo, "internal/mathx/float16.go"), nil, 0)
+	if err != nil {
+		die("%v", err)
+	}
+	fe := findFunc(f3, "expandF16ToF32")
+	t16 := &tr{wrap: "u32", mod: "2 ^ 32", consts: packageConsts(f3), rename: map[string]string{"in": "in_"},
+		bigMant: map[string]string{}, bigExp: map[string]string{}, fn: "expandF16ToF32", fuel: 32}
+	body16 := t16.block(fe.Body.List, "  ")
+	sb.WriteString("\n/-- uint32 wrap-around -/\ndef u32 (n : Nat) : Nat := n % 2 ^ 32\n\n")
+	for _, h := range t16.helpers {
+		sb.WriteString(h + "\n")
+	}
+	sb.WriteString("/-- mathx.expandF16ToF32 (float16.go), statement by statement; an `if` without else duplicates the rest -/\n")
+	sb.WriteString("def expandF16ToF32 (in_ : Nat) : Nat :=\n" + body16 + "\n")
+
+	// ---- mathx.Float80.Float64 (uint64 fields, big.Float with 64 bits of precision, one rounding)
+	f4, err := parser.ParseFile(fset, filepath.Join(repo, "internal/mathx/float80.go"), nil, 0)
+	if err != nil {
+		die("%v", err)
+	}
+	var f64fn *ast.FuncDecl
+	for _, d := range f4.Decls {
+		if fd, ok := d.(*ast.FuncDecl); ok && fd.Name.Name == "Float64" && fd.Recv != nil {
+			f64fn = fd
+		}
+	}
+	if f64fn == nil {
+		die("Float80.Float64 not found")
+	}
+	t80 := &tr{wrap: "u64", mod: "2 ^ 64", consts: packageConsts(f4), rename: map[string]string{},
+		bigMant: map[string]string{}, bigExp: map[string]string{}, fn: "f80to64", fuel: 0}
+	body80 := t80.block(f64fn.Body.List, "  ")
+	sb.WriteString("\n/-- mathx.Float80.Float64 (float80.go): `roundF64 false m e` stands for the exact big.Float m·2^e\n")
+	sb.WriteString("    (precision 64 = the whole significand) rounded by (*big.Float).Float64; `negF64` for `v = -v` -/\n")
+	sb.WriteString("def f80to64 (f_se f_m : Nat) : Nat :=\n" + body80 + "\n")
 
 	sb.WriteString("\nend FqModel.Gen.BitFns\n")
 	fmt.Print(sb.String())
